@@ -397,9 +397,17 @@ public:
     } else if (!m_variable && !other.m_variable) {
       return (m_partitions[0].get_dom() <= other.m_partitions[0].get_dom());
     } else if (!(m_variable == other.m_variable)) {
+      // The join of the partitions of other also describes the values
+      // between them, so it cannot stand for other on the right of an
+      // inclusion test: answer yes only if one partition of other
+      // includes all of this.
       partition_t smashed_this = merge_partitions();
-      partition_t smashed_other = other.merge_partitions();
-      return smashed_this.get_dom() <= smashed_other.get_dom();
+      for (auto const &p : other.m_partitions) {
+        if (smashed_this.get_dom() <= p.get_dom()) {
+          return true;
+        }
+      }
+      return false;
     } else {
       for (auto this_it = m_partitions.begin(), this_et = m_partitions.end(),
                 other_it = other.m_partitions.begin(),
